@@ -17,37 +17,37 @@ STRIDED = "lib/core/covfie/core/backend/transformer/strided.hpp"
 MORTON = "lib/core/covfie/core/backend/transformer/morton.hpp"
 
 
-def make_strided(N, s, M=2, T="float"):
+def make_strided(N, s, M=2, T="float", route="direct"):
     ct = STYPES[s][0]
     args = [(ct, ('c', k)) for k in range(N)] + [("std::size_t", ('s', k)) for k in range(N)] + [("std::uint64_t", 'tag')]
     a = lambda role: "a%d" % [r for _, r in args].index(role)
     body = """
-  using P = verif::aprobe<%s, %d>;
-  using B = strided<verif::vd<%s, %d>, P>;
-  B::owning_data_t o(B::configuration_t{%s}, P::owning_data_t(P::configuration_t{%s}));
+  %s
   B::non_owning_data_t v(o);
   auto & r = v.at({%s});
   %s
-""" % (T, M, ct, N, ", ".join(a(('s', k)) for k in range(N)), a('tag'), ", ".join(a(('c', k)) for k in range(N)),
+""" % (harness.construct(route, "strided", None, "B::configuration_t{%s}" % ", ".join(a(('s', k)) for k in range(N)), a('tag'),
+                         types="using P = verif::aprobe<%s, %d>; using B = strided<verif::vd<%s, %d>, P>;\n" % (T, M, ct, N)),
+       ", ".join(a(('c', k)) for k in range(N)),
        " ".join("out[%d] = r[%d];" % (q, q) for q in range(M)))
-    return Harness("strided_%s_%d" % (s, N), args, body, out=(T, M), meta={"N": N, "S": s, "M": M, "T": T, "layer": "strided"})
+    return Harness("strided_%s_%d%s" % (s, N, "" if route == "direct" else "_" + route), args, body, out=(T, M), meta={"N": N, "S": s, "M": M, "T": T, "layer": "strided", "route": route})
 
 
-def make_morton(N, s, bmi2, M=2, T="float"):
+def make_morton(N, s, bmi2, M=2, T="float", route="direct"):
     ct = STYPES[s][0]
     args = [(ct, ('c', k)) for k in range(N)] + [("std::size_t", ('s', k)) for k in range(N)] + [("std::uint64_t", 'tag')]
     a = lambda role: "a%d" % [r for _, r in args].index(role)
     body = """
-  using P = verif::aprobe<%s, %d>;
-  using B = morton<verif::vd<%s, %d>, P, %s>;
-  B::owning_data_t o(B::configuration_t{%s}, P::owning_data_t(P::configuration_t{%s}));
+  %s
   B::non_owning_data_t v(o);
   auto & r = v.at({%s});
   %s
-""" % (T, M, ct, N, "true" if bmi2 else "false", ", ".join(a(('s', k)) for k in range(N)), a('tag'), ", ".join(a(('c', k)) for k in range(N)),
+""" % (harness.construct(route, "morton", None, "B::configuration_t{%s}" % ", ".join(a(('s', k)) for k in range(N)), a('tag'),
+                         types="using P = verif::aprobe<%s, %d>; using B = morton<verif::vd<%s, %d>, P, %s>;\n" % (T, M, ct, N, "true" if bmi2 else "false")),
+       ", ".join(a(('c', k)) for k in range(N)),
        " ".join("out[%d] = r[%d];" % (q, q) for q in range(M)))
-    return Harness("morton_%s_%d_%s" % (s, N, "pdep" if bmi2 else "port"), args, body, out=(T, M),
-                   meta={"N": N, "S": s, "M": M, "T": T, "layer": "morton", "bmi2": bmi2})
+    return Harness("morton_%s_%d_%s%s" % (s, N, "pdep" if bmi2 else "port", "" if route == "direct" else "_" + route), args, body, out=(T, M),
+                   meta={"N": N, "S": s, "M": M, "T": T, "layer": "morton", "bmi2": bmi2, "route": route})
 
 
 def make_morton_static(N, s, bmi2):
@@ -103,7 +103,7 @@ def narrow_ops(t, width=64):
 
 def check_strided(rep, h):
     N, S = h.meta["N"], h.meta["S"]
-    inst = "strided<%s,%d>" % (S, N)
+    inst = "strided<%s,%d>" % (S, N) + (" via " + h.meta["route"] if h.meta.get("route", "direct") != "direct" else "")
     if h.error:
         loc, msg = harness.first_error(h)
         rep.fail("C14.compile", inst, loc, "does not compile: " + msg)
@@ -205,7 +205,7 @@ def showbit(b, h):
 def check_morton(rep, h):
     N, S, bmi2 = h.meta["N"], h.meta["S"], h.meta["bmi2"]
     static = h.meta["layer"] == "morton-static"
-    inst = "%s<%s,%d,%s>" % ("morton::calculate_index" if static else "morton", S, N, "pdep" if bmi2 else "portable")
+    inst = "%s<%s,%d,%s>" % ("morton::calculate_index" if static else "morton", S, N, "pdep" if bmi2 else "portable") + (" via " + h.meta["route"] if h.meta.get("route", "direct") != "direct" else "")
     if h.error:
         loc, msg = harness.first_error(h)
         rep.fail("C14.compile", inst, loc, "does not compile: " + msg)
@@ -250,7 +250,12 @@ def harnesses(tier):
     hs_s = [make_strided(N, s) for N in Ns for s in Ss]
     # dimension-dispatched index code (if constexpr (N == ...)) is cheap to cover: strided alone goes two dimensions further
     hs_s += [make_strided(N, "size_t") for N in range(max(Ns) + 1, max(Ns) + 3)]
+    # the same contracts along the other construction routes (parameter packs, copies, assignment, move): a member that only some
+    # constructors derive from the extents shows on the routes that forget it
+    routes = [r for r in harness.ROUTES[2:] if r != "assign"]      # the default constructor of a storage-order layer needs an array-like backend
+    hs_s += [make_strided(2 + i % 2, "size_t", route=r) for i, r in enumerate(routes)]
     hs_mp = [make_morton(N, s, False) for N in Ns for s in Ss] + [make_morton_static(N, s, False) for N in Ns for s in Ss]
+    hs_mp += [make_morton(2 + i % 2, "size_t", False, route=r) for i, r in enumerate(r_ for r_ in harness.ROUTES[2:] if r_ != "assign")]
     hs_mb = [make_morton(N, s, True) for N in Ns for s in Ss] + [make_morton_static(N, s, True) for N in Ns for s in Ss]
     return hs_s, hs_mp, hs_mb
 
